@@ -45,6 +45,14 @@ type ReplaySpec struct {
 	RetTypes []string // string []byte int bool error
 	NoRequires bool
 	sliceOf  map[string]*Term
+	Reqs     []*Term      // translated preconditions
+	Files    []replayFile // string parameters the contract uses as keys of the file-system view
+}
+
+// replayFile: a path parameter; existence and content of that file in the entry and in the return state
+type replayFile struct {
+	Param          string
+	X0, C0, X1, C1 *Term
 }
 
 func scalarGoType(t types.Type) string {
@@ -66,12 +74,12 @@ func scalarGoType(t types.Type) string {
 }
 
 // buildReplaySpec returns nil when the function is outside the replayable class.
-func (x *Exec) buildReplaySpec(entry *State, vals []*Term) *ReplaySpec {
+func (x *Exec) buildReplaySpec(entry, ret *State, vals []*Term) *ReplaySpec {
 	fi := x.fi
 	if fi.Lit != nil || fi.Recv != nil || fi.Decl == nil || x.mode == "arr" {
 		return nil
 	}
-	sp := &ReplaySpec{Fi: fi, Rets: vals, sliceOf: map[string]*Term{}, NoRequires: len(x.c.Requires) == 0}
+	sp := &ReplaySpec{Fi: fi, Rets: vals, sliceOf: map[string]*Term{}, NoRequires: len(x.c.Requires) == 0, Reqs: x.entryReqs}
 	sig := fi.Sig
 	if sig.Variadic() || sig.TypeParams() != nil {
 		return nil
@@ -96,6 +104,12 @@ func (x *Exec) buildReplaySpec(entry *State, vals []*Term) *ReplaySpec {
 		}
 		if gt := scalarGoType(v.Type()); gt != "" {
 			sp.Items = append(sp.Items, replayItem{Kind: "param", Name: v.Name(), GoType: gt, Term: t})
+			if gt == "string" && x.contractMentionsFile(v.Name()) && ret != nil {
+				xs, cs := arraySort(SStr, SBool), arraySort(SStr, SStr)
+				sp.Files = append(sp.Files, replayFile{Param: v.Name(),
+					X0: Select(x.getSt(entry, "fsx", xs), t), C0: Select(x.getSt(entry, "fsc", cs), t),
+					X1: Select(x.getSt(ret, "fsx", xs), t), C1: Select(x.getSt(ret, "fsc", cs), t)})
+			}
 			continue
 		}
 		pt, ok := types.Unalias(v.Type()).Underlying().(*types.Pointer)
@@ -164,6 +178,21 @@ func (x *Exec) buildReplaySpec(entry *State, vals []*Term) *ReplaySpec {
 		}
 	}
 	return sp
+}
+
+// contractMentionsFile: the contract speaks about the file named by this parameter (fsc[p] / fsx[p]).
+func (x *Exec) contractMentionsFile(param string) bool {
+	for _, cl := range x.c.Ensures {
+		if strings.Contains(cl.Text, "fsc["+param+"]") || strings.Contains(cl.Text, "fsx["+param+"]") {
+			return true
+		}
+	}
+	for _, l := range x.c.Lets {
+		if strings.Contains(l.Text, "fsc["+param+"]") || strings.Contains(l.Text, "fsx["+param+"]") {
+			return true
+		}
+	}
+	return false
 }
 
 // ---------------------------------------------------------------------------
@@ -819,6 +848,9 @@ func runCmdTimeout(seconds int, name string, args ...string) (string, error) {
 // {"", "---", "/-/-/-/", "a", "b"} and of four lines over {"", "---", "a"}; ints 0..2; both booleans; at most 400 combinations.
 func searchWitness(p *Prelude, o *Obligation) (map[string]any, bool) {
 	sp := o.Replay
+	if sp != nil && len(sp.Files) > 0 {
+		return searchFileWitness(p, o)
+	}
 	if sp == nil || o.Kind != "ensures" || !sp.NoRequires {
 		return nil, false // the closed clause is judged without hypotheses: only for functions without preconditions
 	}
